@@ -1,6 +1,6 @@
 (* C04 — paths and accessors address exactly the leaves. *)
-From OptreeModel Require Import Base Tree Flatten Unflatten Spec Accessor PathsArr AccArr.
-From OptreeProofs Require Import TraversalProofs AccessorProofs PathsFree UpToPaths PrefixArrProofs PathsArrProofs AccArrProofs.
+From OptreeModel Require Import Base Tree Flatten Unflatten Spec Accessor PathsArr AccArr Dataclass.
+From OptreeProofs Require Import TraversalProofs AccessorProofs PathsFree UpToPaths PrefixArrProofs PathsArrProofs AccArrProofs DataclassProofs.
 
 (* For every tree whose custom nodes declare pairwise distinct entries, every configuration: the
    i-th path, applied to the tree entry by entry (sequence index, dict key, namedtuple /
@@ -91,3 +91,27 @@ Theorem C04_treespec_accessors_count :
   length (st_accessors t) = st_leaves t.
 Proof. exact st_accessors_count. Qed.
 Print Assumptions C04_treespec_accessors_count.
+
+(* DataclassEntry (optree/accessor.py): for a dataclass registered as a custom node whose flatten function
+   hands out the values of its init fields in declaration order without entries, the integer entry i
+   names the i-th INIT field, whose attribute is the i-th child — for every field layout (init=False
+   fields before, between and after the init fields) and every instance; there is exactly one entry per
+   child. Indexing all fields instead (fields[entry]) names another attribute. *)
+Theorem C04_dataclass_entry_hits_child :
+  forall (V : Type) fs (x : inst V) i v,
+  nth_error (init_children V fs x) i = Some v ->
+  exists n, dc_entry_field fs i = Some n /\ get V n x = v.
+Proof. exact dc_entry_hits_child. Qed.
+Print Assumptions C04_dataclass_entry_hits_child.
+
+Theorem C04_dataclass_entry_count :
+  forall (V : Type) fs (x : inst V),
+  length (init_children V fs x) = length (init_fields fs) /\
+  forall i, (i < length (init_fields fs))%nat <-> dc_entry_field fs i <> None.
+Proof. exact dc_entry_count. Qed.
+Print Assumptions C04_dataclass_entry_count.
+
+Theorem C04_dataclass_entry_over_all_fields_refuted :
+  exists fs i, dc_entry_field fs i <> dc_entry_field_all fs i /\ dc_entry_field fs i <> None.
+Proof. exact dc_entry_all_fields_refuted. Qed.
+Print Assumptions C04_dataclass_entry_over_all_fields_refuted.
